@@ -732,3 +732,13 @@ package main
 //@   atcall (*database/sql.DB).Begin sets ghostWriteCommitted bool (db *sql.DB, tx2 *sql.Tx, err2 error) :: false
 //@   atcall (*database/sql.Tx).Commit sets ghostWriteCommitted bool (tx2 *sql.Tx, err2 error) :: true if err2 == nil && tx2 == ghostWriteTx
 //@   ensures ret0 == nil ==> ghostWriteCommitted   #C15.deleted-profile-committed @C15
+
+// ---- C14: the limiter that throttles password guesses is built from the configured burst and rate ----------------
+// (from what the state under construction holds once the configuration file was parsed into it)
+//@ ghost var ghostNewState *RuntimeState
+//@ ghost var ghostConfigParsed bool
+//@ func loadVerifyConfigFile
+//@   handler loadVerifyConfigFile
+//@   atcall (*RuntimeState).initEmailDefaults sets ghostNewState *RuntimeState (s2 *RuntimeState) :: s2
+//@   atcall gopkg.in/yaml.v2.Unmarshal sets ghostConfigParsed bool (in []byte, out any, err2 error) :: err2 == nil
+//@   atcall golang.org/x/time/rate.NewLimiter requires (r rate.Limit, b int) :: ghostConfigParsed && ghostNewState != nil && same(r, ghostNewState.Config.Base.PasswordAttemptGlobalRateLimit) && b == int(ghostNewState.Config.Base.PasswordAttemptGlobalBurstLimit)   #C14.limiter-from-parsed-configuration @C14
